@@ -279,6 +279,13 @@ func (d *Downloader) synchronise(id string, hash types.Hash, td uint64) error {
 	// Reset the queue and peer set to clean any internal leftover state
 	d.queue.Reset()
 	d.peers.Reset()
+
+	// a continuation flag that the hash fetcher of an aborted synchronisation left behind would end this
+	// synchronisation's block fetcher before the first hash arrives
+	select {
+	case <-d.processCh:
+	default:
+	}
 	d.checks = make(map[types.Hash]*crossCheck)
 
 	// Create cancel channel for aborting mid-flight
